@@ -69,6 +69,10 @@ def spawn_shards(mod, prop, tier, seed, repo, plan, scratch_root, mode="run", re
         hs = plan.get("hashseeds") or HASHSEEDS
         env["PYTHONHASHSEED"] = str(hs[(i + seed) % len(hs)])
         env["TMPDIR"] = sdir
+        if i in (plan.get("ascii_locale_shards") or []):
+            # a process whose preferred encoding is ASCII (what open(path, "w") uses): the C locale with Python's
+            # UTF-8 coercion switched off
+            env.update({"LC_ALL": "C", "LANG": "C", "PYTHONUTF8": "0", "PYTHONCOERCECLOCALE": "0", "PYTHONIOENCODING": "utf-8"})
         log = open(os.path.join(scratch_root, "log%d.txt" % i), "w")
         p = subprocess.Popen([sys.executable, "-m", "rv.shard", spath], env=env, cwd=HERE,
                              stdout=log, stderr=subprocess.STDOUT)
@@ -256,6 +260,8 @@ def do_replay(mod, prop, tier, seed, repo, path, scratch_root):
         v = json.load(f)
     case = v.get("case", v)
     plan = {"shards": 1, "params": dict(mod.plan(tier).get("params") or {}), "timeout_s": 900}
+    if v.get("ascii_locale"):
+        plan["ascii_locale_shards"] = [0]
     if v.get("hashseed"):
         plan["hashseeds"] = [str(v["hashseed"])]
         seed_for = 0
